@@ -10,7 +10,7 @@ import (
 var (
 	variantStandard = Variant{Name: "standard", IncludeDeprecated: true}
 	variantFull     = Variant{Name: "full", IncludeDeprecated: true, InputDeprecation: true, Extras: true}
-	variantNoDep    = Variant{Name: "nodep", IncludeDeprecated: false, InputDeprecation: true, Extras: true, ArgsFiltered: true}
+	variantNoDep    = Variant{Name: "nodep", IncludeDeprecated: false, InputDeprecation: true, Extras: true, ArgsFiltered: false}
 	variantByType   = Variant{Name: "bytype", IncludeDeprecated: true, InputDeprecation: true, Extras: true}
 )
 
